@@ -520,6 +520,7 @@ impl TraceOracle for C16 {
                     0 => a[0] == b[0],
                     1 => a[0] == b[0] && a[1] > b[1],
                     3 => true,
+                    4 => a[0] == 0 || a[0] == b[0],
                     _ => false,
                 }
             };
